@@ -1138,4 +1138,34 @@ example : tlvElements [0x36, 0x01, 0x24, 0x02, 0x05, 0x18, 0x18, 0xff] =
       [[0x36, 0x01, 0x24, 0x02, 0x05, 0x18, 0x18, 0xff], [0x24, 0x02, 0x05, 0x18, 0x18, 0xff], [0x18, 0x18, 0xff]] := by
   decide
 
+
+/-! ## `container_value_len` of a container lies within the input by itself -/
+
+/-- for a container element the value length computed by the `container_value_len` walk lies within
+the input on its own — the final bounds check of `container_len` is what catches over-long *strings* -/
+theorem containerValueLen_within (bs : Bytes) (c : Control) (n : Nat) (hu : bs.length + 1 < USIZE)
+    (hc : control bs = .ok c) (hic : c.vt.isContainer = true) (h : containerValueLen bs c = .ok n) :
+    hdrLen c + n ≤ bs.length := by
+  cases bs with
+  | nil => simp [control] at hc
+  | cons b tl =>
+    unfold containerValueLen at h
+    simp only [hic, if_true] at h
+    obtain ⟨f', P, _, hP, hstep⟩ := cvlLoop_pos_inv h
+    have hPle := nextEnter_le hP
+    obtain ⟨k, hk1, hk2, _, _⟩ := walk_main (P.length + 1) f' P 0 0 n (Nat.lt_succ_self _) (by omega) hstep
+    have hvl : valueLen (b :: tl) c = .ok 0 := by
+      unfold valueLen
+      cases hv : c.vt <;> simp [hv, ValueType.isContainer, ValueType.isContainerStart, ValueType.isContainerEnd,
+        ValueType.fixedSize] at hic ⊢
+    have he : elemLen (b :: tl) = .ok (hdrLen c) := by
+      simp only [elemLen, hc, Res.ok_bind, hvl]
+      have h1 : c.tag.size ≤ 8 := by cases c.tag <;> simp [TagType.size]
+      have h2 : c.vt.varSizeLen ≤ 8 := by
+        cases c.vt <;> simp only [ValueType.varSizeLen, Nat.zero_le] <;> rename_i w <;> cases w <;> simp [Width.bytes]
+      exact checkedAdd_ok (by simp only [hdrLen, USIZE]; omega)
+    obtain ⟨n', s, _, _, _, he', hPd, hle, _⟩ := nextEnter_elemLen hc hP he
+    have : P.length = (b :: tl).length - hdrLen c := by rw [hPd]; simp
+    omega
+
 end Tlv
